@@ -58,6 +58,24 @@ Section Statements.
     /\ elide_end cw text ell max = EOut text (swidth cw text).
   Proof. exact (elide_fits_unchanged cw). Qed.
 
+  (** Nothing is dropped that would still have fitted: the first character elide_end leaves out
+      does not fit in front of the ellipsis ... *)
+  Theorem C44_elide_end_maximal : forall (text ell : list A) max out w,
+    elide_end cw text ell max = EOut out w ->
+    (max < swidth cw text)%nat -> (swidth cw ell <= max)%nat ->
+    exists t c p, out = t ++ ell /\ text = t ++ c :: p
+                  /\ (max < swidth cw t + cw c + swidth cw ell)%nat.
+  Proof. exact (elide_end_maximal cw). Qed.
+
+  (** ... and the character before what elide_start keeps (skipping the zero-width characters
+      [z] it trims) does not fit after the ellipsis. *)
+  Theorem C44_elide_start_maximal : forall (text ell : list A) max out w,
+    elide_start cw text ell max = EOut out w ->
+    (max < swidth cw text)%nat -> (swidth cw ell <= max)%nat ->
+    exists t c p, out = ell ++ t /\ (exists z, text = p ++ c :: z ++ t /\ swidth cw z = 0%nat)
+                  /\ (max < swidth cw ell + cw c + swidth cw t)%nat.
+  Proof. exact (elide_start_maximal cw). Qed.
+
   (** write_truncated_* on strings where the two measures agree (PARTIAL: see C44_full below). *)
   Theorem C44_truncated_end_partial : forall (sw : list A -> nat) data ell max out w,
     write_truncated_end cw sw data ell max = (out, w) ->
